@@ -37,14 +37,18 @@ PROPS = {
 
 # census of unsafe sites in the crate (file -> (unsafe blocks, unsafe fns)); the model
 # has exactly one unchecked access reachable from safe code (iteration.rs try_get_next_item)
-UNSAFE_CENSUS = {"compact_arena.rs": (1, 4), "iteration.rs": (1, 0), "node.rs": (0, 3)}
+UNSAFE_CENSUS = {"compact_arena.rs": (0, 4), "iteration.rs": (1, 0), "node.rs": (0, 3)}   # test modules excluded
 
 
 def unsafe_census(repo="/repo"):
     out = {}
     for f in sorted(glob.glob(os.path.join(repo, "rust", "src", "*.rs"))):
         blocks = fns = 0
-        for line in open(f, errors="replace"):
+        text = open(f, errors="replace").read()
+        m = re.search(r"^#\[cfg\(test\)\]\s*\nmod\s+\w+\s*\{", text, re.M)
+        if m:
+            text = text[:m.start()]       # unit-test modules are not part of the modelled code
+        for line in text.split("\n"):
             t = line.strip()
             if t.startswith("//"):
                 continue
